@@ -40,6 +40,9 @@ def enc_attr(tag, kind, val, o):
         return t + leb.uleb(val[0]) + val[1].encode('utf-8') + b'\0'
     if kind == 'also':
         return t + leb.uleb(val[0]) + leb.uleb(val[1]) + b'\0'
+    if kind == 'also_str':
+        # the nested attribute is string-valued: its own NUL ends the record (no second terminator)
+        return t + leb.uleb(val[0]) + val[1].encode('utf-8') + b'\0'
     raise AssertionError(kind)
 
 
@@ -51,7 +54,7 @@ def attr_lists(arch, which):
             'empty': [],
             'one': [(6, 'uleb', 0)],
             'kinds': [(4, 'ntbs', ''), (5, 'ntbs', 'x' * 70), (6, 'uleb', 300), (32, 'compat', (1, 'gnu')), (32, 'compat', (0, '')), (65, 'also', (6, 10)),
-                      (67, 'ntbs', '2.09'), (34, 'uleb', 1), (44, 'uleb', 0), (70, 'uleb', 0x3fff)],
+                      (65, 'also_str', (5, 'Cortex-M3')), (65, 'also_str', (67, '2.09')), (65, 'also_str', (4, '')), (67, 'ntbs', '2.09'), (34, 'uleb', 1), (44, 'uleb', 0), (70, 'uleb', 0x3fff)],
             'unknown': [(100, 'uleb', 5), (200, 'uleb', 300), (6, 'uleb', 1), (0x4000, 'uleb', 0)],
             'every_std': [(t, k, {'uleb': t % 5, 'ntbs': 'v%d' % t, 'compat': (t, 'c'), 'also': (6, t % 12)}[k]) for t, k in sorted(ARM_STD.items())],
             'padded_leb': [(6, 'uleb_padded', 10), (7, 'uleb_padded', 0)],
@@ -150,7 +153,7 @@ def run_attrs(ch):
             return (t, v, None)
         if k == 'compat':
             return (t, v[0], v[1])
-        if k == 'also':
+        if k in ('also', 'also_str'):
             return (t, ('nested', v[0], v[1]), None)
 
     def cmp_attrs(path, got, alist):
